@@ -34,6 +34,12 @@ pub enum Kind {
     /// opsize: 2, 4 or 8 bytes written to the destination register
     MovFromSreg { sreg: u8, gpr: u8, opsize: u8 },
     MovToSreg { sreg: u8, gpr: u8 },
+    /// `mov m16, sreg` / `mov sreg, m16`: the memory forms always move 16 bits
+    MovSregToMem { sreg: u8, addr: u64 },
+    MovMemToSreg { sreg: u8, addr: u64 },
+    /// `push fs|gs` / `pop fs|gs` (the only segment pushes that exist in 64-bit mode)
+    PushSreg { sreg: u8, opsize: u8 },
+    PopSreg { sreg: u8, opsize: u8 },
     /// which: 0 rdfsbase 1 rdgsbase 2 wrfsbase 3 wrgsbase
     FsGsBase { which: u8, gpr: u8, wide: bool },
     Cpuid,
@@ -169,15 +175,23 @@ pub fn decode(bytes: &[u8], regs: &dyn Regs) -> Option<Insn> {
         0xcf if rexw => Kind::Iretq,
         0x8c => {
             let m = modrm(&mut c, rex, regs)?;
-            if m.md != 3 || (m.reg & 7) > 5 {
+            if (m.reg & 7) > 5 {
                 return None;
+            }
+            if m.md != 3 {
+                let addr = fix(&c, &m, regs)?;
+                return Some(Insn { kind: Kind::MovSregToMem { sreg: m.reg & 7, addr }, len: c.i });
             }
             Kind::MovFromSreg { sreg: m.reg & 7, gpr: m.rm, opsize: if rexw { 8 } else if p66 { 2 } else { 4 } }
         }
         0x8e => {
             let m = modrm(&mut c, rex, regs)?;
-            if m.md != 3 || (m.reg & 7) > 5 {
+            if (m.reg & 7) > 5 {
                 return None;
+            }
+            if m.md != 3 {
+                let addr = fix(&c, &m, regs)?;
+                return Some(Insn { kind: Kind::MovMemToSreg { sreg: m.reg & 7, addr }, len: c.i });
             }
             Kind::MovToSreg { sreg: m.reg & 7, gpr: m.rm }
         }
@@ -196,6 +210,10 @@ pub fn decode(bytes: &[u8], regs: &dyn Regs) -> Option<Insn> {
                         _ => Kind::MovToDr { dr: n, gpr },
                     }
                 }
+                0xa0 => Kind::PushSreg { sreg: 4, opsize: if p66 { 2 } else { 8 } },
+                0xa8 => Kind::PushSreg { sreg: 5, opsize: if p66 { 2 } else { 8 } },
+                0xa1 => Kind::PopSreg { sreg: 4, opsize: if p66 { 2 } else { 8 } },
+                0xa9 => Kind::PopSreg { sreg: 5, opsize: if p66 { 2 } else { 8 } },
                 0x30 => Kind::Wrmsr,
                 0x32 => Kind::Rdmsr,
                 0xa2 => Kind::Cpuid,
@@ -298,5 +316,10 @@ mod tests {
         assert_eq!(decode(&[0xf3, 0x48, 0x0f, 0xae, 0xc0], &R).unwrap().kind, Kind::FsGsBase { which: 0, gpr: 0, wide: true });
         assert_eq!(decode(&[0x0f, 0x00, 0xd8], &R).unwrap().kind, Kind::Ltr { gpr: 0 });
         assert_eq!(decode(&[0x8c, 0xc8], &R).unwrap().kind, Kind::MovFromSreg { sreg: 1, gpr: 0, opsize: 4 });
+        // mov word ptr [rax], cs / mov ds, word ptr [rcx] / push fs / pop gs
+        assert!(matches!(decode(&[0x8c, 0x08], &R).unwrap().kind, Kind::MovSregToMem { sreg: 1, .. }));
+        assert!(matches!(decode(&[0x8e, 0x19], &R).unwrap().kind, Kind::MovMemToSreg { sreg: 3, .. }));
+        assert_eq!(decode(&[0x0f, 0xa0], &R).unwrap().kind, Kind::PushSreg { sreg: 4, opsize: 8 });
+        assert_eq!(decode(&[0x0f, 0xa9], &R).unwrap().kind, Kind::PopSreg { sreg: 5, opsize: 8 });
     }
 }
